@@ -215,6 +215,31 @@ def campaign(c):
         else:
             c.violation('payload:rejected', 'frag-context: %s' % (impl['outcome'],), dict(src=src.decode('utf-8')[:3000]))
         c.case(('ctx', i), dict(kind='frag-context', ops=[o[0] for o in ops]) if i % 4 == 0 else None)
+    # one stateful flow used several times: every call carries ITS OWN bytes, whatever the calls before it carried (empty after
+    # non-empty, short after long, the same call twice)
+    for i in range(36 if c.quick else 600):
+        r = c.rng.fork('c05-hist-%d' % i)
+        kind = ['icmp', 'udp', 'tcp'][i % 3]
+        decl, hdr, calls = {'icmp': ('let f = ipv4::icmp::flow(1.2.3.4, 6.7.8.9);', 42, ['f.echo(%s);', 'f.echo_reply(%s);']),
+                            'udp': ('let f = ipv4::udp::flow(1.2.3.4:5, 6.7.8.9:80);', 42, ['f.client_dgram(%s);', 'f.server_dgram(%s);']),
+                            'tcp': ('let f = ipv4::tcp::flow(1.2.3.4:5, 6.7.8.9:80);', 54, ['f.client_message(send_ack: false, %s);', 'f.server_message(send_ack: false, %s);', 'f.client_segment(%s);', 'f.server_segment(%s);'])}[kind]
+        lets, ops = [], []
+        for _ in range(2 + r.below(6)):
+            b = b'' if r.chance(1, 3) else pick_bytes(r, 200)
+            ops.append((r.choice(calls) % (spell(r, b, lets) if b or r.chance(1, 2) else '""'), b))
+        src = (HEAD + '\n'.join(lets) + '\n' + decl + '\n' + '\n'.join(o[0] for o in ops) + '\n').encode('utf-8')
+        impl, model = progdiff.run_both(c, src)
+        progdiff.compare(c, src, impl, model, 'payload:flow-history', project=lambda f, h=hdr: f[h:], times=False)
+        if impl['outcome'][0] == 'success':
+            recs = [x[1][hdr:] for x in progdiff.pcap_records(impl['file'] or b'')]
+            if recs != [o[1] for o in ops]:
+                bad = [j for j, (g, o) in enumerate(zip(recs, ops)) if g != o[1]]
+                c.violation('payload:flow-history:' + kind, 'call %s on a flow used before does not carry exactly its own bytes (%d calls, %d records)' % (ops[bad[0]][0][:80] if bad else '?', len(ops), len(recs)), dict(src=src.decode('utf-8')[:3000]))
+            c.traces_validated += 1
+        else:
+            c.violation('payload:rejected', 'flow-history: %s' % (impl['outcome'],), dict(src=src.decode('utf-8')[:3000]))
+        c.count('flow-history:' + kind)
+        c.case(('hist', i), dict(kind='flow-history', flow=kind, lens=[len(o[1]) for o in ops]) if i % 6 == 0 else None)
     # join helpers with empty parts in every position (leading, middle, trailing, all empty)
     import itertools
     for n in (1, 2, 3, 4):
